@@ -1,6 +1,6 @@
 SPECIFICATION ESpec
 CONSTANTS
-  MaxTotal = 5
+  MaxTotal = 4
   MaxPerKind = 3
 INVARIANTS EmitScn
 CHECK_DEADLOCK FALSE
